@@ -44,7 +44,8 @@ def hostile(rng, style):
     closing = BRACKETS.get(style)
     cls = rng.choice(["lf", "cr", "crlf", "unicode-break", "closer", "own-closer", "own-opener",
                       "opener", "payload", "percent", "format-field", "non-ascii", "blank", "long",
-                      "lf+closer", "trailing-break"])
+                      "lf+closer", "trailing-break", "nested-closer", "nested-closer", "split-closer",
+                      "closer-run"])
     pay = rng.choice(PAYLOADS)
     if cls == "lf":
         t = f"hello\n{pay}"
@@ -74,6 +75,22 @@ def hostile(rng, style):
         t = rng.choice(["", " ", "\t", "   "])
     elif cls == "long":
         t = "x" * rng.choice([300, 5000]) + " " + pay
+    elif cls == "nested-closer":
+        # the closing symbol nested inside itself: deleting the inner one re-creates it
+        c = closing or rng.choice(CLOSERS)
+        nested = c
+        for _ in range(rng.randint(1, 3)):
+            k = rng.randint(0, len(nested))
+            nested = nested[:k] + c + nested[k:]
+        t = f"a {nested} {pay}"
+    elif cls == "split-closer":
+        # a line break (or blank) in the middle of the closing symbol
+        c = closing or "*/"
+        k = max(1, len(c) // 2)
+        t = f"a {c[:k]}{rng.choice(['\n', '\r', ' ', '\t', ''])}{c[k:]} {pay}"
+    elif cls == "closer-run":
+        c = closing or rng.choice(CLOSERS)
+        t = "a " + c * rng.randint(2, 5) + " " + pay + " " + c
     elif cls == "lf+closer":
         t = f"a {closing or ')'}\n{pay}"
     else:
@@ -130,7 +147,8 @@ def run_case(ctx, col, case):
     col.count("differential_pairs")
     if cls in ("lf", "cr", "crlf", "lf+closer", "trailing-break"):
         col.count("hostile_linebreak")
-    if cls in ("closer", "own-closer", "own-opener", "opener", "lf+closer"):
+    if cls in ("closer", "own-closer", "own-opener", "opener", "lf+closer", "nested-closer",
+               "split-closer", "closer-run"):
         col.count("hostile_delimiter")
     col.key(cls, style, entry)
     detail = {"style": style, "entry": entry, "text": text, "class": cls, "line_ending": le}
